@@ -23,6 +23,17 @@ LIBDIR = os.path.join(fw.REPO_SRC, 'numdifftools')
 # configuration pool: (fname, method, n, order, gen)
 POOL = [('exp', 'central', 1, 2, 'default'), ('exp', 'central', 1, 4, 'default'), ('exp', 'central', 2, 2, 'default'),
         ('exp', 'forward', 1, 2, 'default'), ('exp', 'complex', 3, 2, 'default'), ('exp', 'central', 1, 4, 'ratio3')]
+# multivariate classes (a class-level scratch object or cache in THEIR difference functions must show as well)
+MPOOL = [('mexp', 'central', 2, 2, 'default', 'Hessdiag'), ('mexp', 'forward', 2, 2, 'default', 'Hessdiag'),
+         ('mexp', 'central', 1, 2, 'default', 'Gradient'), ('mexp', 'central', 2, None, 'default', 'Hessian'),
+         ('vexp', 'forward', 1, 2, 'default', 'Jacobian')]
+POOL_ALL = POOL + MPOOL
+
+
+def cls_of(cfg):
+    return cfg[5] if len(cfg) > 5 else 'Derivative'
+
+
 XS = [0.5, 2.0, [0.5, 2.0], [30.0, 0.5]]
 BUF_XI = (2, 3)     # array points that are also presented through one persistent, in-place updated ndarray
 SLOTS = ['A', 'B']
@@ -30,7 +41,7 @@ N_ALT, O_ALT, M_ALT = [1, 2, 3], [2, 4], ['central', 'forward']
 
 
 def ref_key(cfg, xi):
-    return '%s/%s/%d/%d/%s@%d' % (cfg + (xi,))
+    return '%s/%s/%r/%r/%s/%s@%d' % (cfg[0], cfg[1], cfg[2], cfg[3], cfg[4], cls_of(cfg), xi)
 
 
 def all_ref_jobs():
@@ -41,6 +52,11 @@ def all_ref_jobs():
                 for gen in ('default', 'max', 'min', 'ratio3'):
                     for xi in range(len(XS)):
                         jobs.append((('exp', method, n, order, gen), xi))
+    for cfg in MPOOL:
+        for method in M_ALT:
+            for order in ([None] if cls_of(cfg) == 'Hessian' else O_ALT):
+                for xi in BUF_XI:
+                    jobs.append(((cfg[0], method, cfg[2], order, 'default', cfg[5]), xi))
     return jobs
 
 
@@ -50,7 +66,7 @@ def work_refs(chunk):
     out = {}
     script = os.path.join(os.path.dirname(os.path.abspath(__file__)), 'c09_ref.py')
     for cfg, xi in chunk:
-        c = dict(fname=cfg[0], method=cfg[1], n=cfg[2], order=cfg[3], gen=cfg[4], x=XS[xi])
+        c = dict(fname=cfg[0], method=cfg[1], n=cfg[2], order=cfg[3], gen=cfg[4], x=XS[xi], cls=cls_of(cfg))
         env = dict(os.environ)
         r = subprocess.run([sys.executable, script, json.dumps(c)], capture_output=True, text=True, env=env)
         if r.returncode != 0:
@@ -99,7 +115,36 @@ def _assign(c, p):
         c[...] = p
 
 
-SINGLE_NEW = [(0, 'own'), (0, 'max'), (2, 'own'), (4, 'own'), (1, 'max'), (5, 'own'), (0, 'min'), (3, 'own')]
+SINGLE_NEW = [(0, 'own'), (0, 'max'), (4, 'own'), (6, 'own'), (2, 'own'), (1, 'max'), (5, 'own'), (0, 'min'), (3, 'own'), (7, 'own'),
+              (8, 'own'), (9, 'own'), (10, 'own')]
+
+
+def object_ops(world, s):
+    obj = world.slots[s]
+    multi = cls_of(world.orig[s]) != 'Derivative'
+    ops = []
+    for xi in (BUF_XI if multi else range(len(XS))):
+        ops.append(('call', s, xi))
+    for xi in BUF_XI:
+        ops.append(('callbuf', s, xi))
+    ops.append(('abort', s, 2, 1))         # the user function raises at its 2nd / 4th evaluation: the call is
+    ops.append(('abort', s, 2, 3))         # abandoned half-way, the exception propagates to the caller
+    if not multi:
+        for n in N_ALT:
+            if n != obj.n:
+                ops.append(('set', s, 'n', n))
+    if cls_of(world.orig[s]) != 'Hessian':
+        for o in O_ALT:
+            if o != obj.order:
+                ops.append(('set', s, 'order', o))
+    if world.orig[s][1] != 'complex':
+        for m in M_ALT:
+            if m != obj.method:
+                ops.append(('set', s, 'method', m))
+    now = (obj.method, obj.n, obj.order) if not multi else (obj.method, world.orig[s][2], obj.order)
+    if now != tuple(world.orig[s][1:4]) and not (cls_of(world.orig[s]) == 'Hessian' and obj.method == world.orig[s][1]):
+        ops.append(('restore', s))
+    return ops
 
 
 def enabled_ops_single(world, hist, quick):
@@ -107,20 +152,9 @@ def enabled_ops_single(world, hist, quick):
     if not hist:
         news = SINGLE_NEW[:4] if quick else SINGLE_NEW
         return [('new', 'A', ci, g) for ci, g in news]
-    obj = world.slots['A']
-    ops = [('call', 'A', 0), ('call', 'A', 2), ('callbuf', 'A', 3)]
-    for n in N_ALT:
-        if n != obj.n:
-            ops.append(('set', 'A', 'n', n))
-    for o in O_ALT:
-        if o != obj.order:
-            ops.append(('set', 'A', 'order', o))
-    if world.orig['A'][1] != 'complex':
-        for m in M_ALT:
-            if m != obj.method:
-                ops.append(('set', 'A', 'method', m))
-    if (obj.method, obj.n, obj.order) != world.orig['A'][1:4]:
-        ops.append(('restore', 'A'))
+    ops = object_ops(world, 'A')
+    if cls_of(world.orig['A']) == 'Derivative':      # keep the single-object alphabet small: two plain points
+        ops = [o for o in ops if not (o[0] == 'call' and o[2] in (1, 3))]
     return ops
 
 
@@ -138,26 +172,13 @@ def enabled_ops(world, hist, mode='full'):
                 ops.append(('new', s, ci, 'max'))
             if cfg[4] == 'default' and ci in (0, 4):
                 ops.append(('new', s, ci, 'min'))
+        for ci in range(len(POOL), len(POOL_ALL)):
+            ops.append(('new', s, ci, 'own'))
     for s in SLOTS:
         obj = world.slots[s]
         if obj is None:
             continue
-        for xi in range(len(XS)):
-            ops.append(('call', s, xi))
-        for xi in BUF_XI:
-            ops.append(('callbuf', s, xi))
-        for n in N_ALT:
-            if n != obj.n:
-                ops.append(('set', s, 'n', n))
-        for o in O_ALT:
-            if o != obj.order:
-                ops.append(('set', s, 'order', o))
-        if world.orig[s][1] != 'complex':
-            for m in M_ALT:
-                if m != obj.method:
-                    ops.append(('set', s, 'method', m))
-        if (obj.method, obj.n, obj.order) != world.orig[s][1:4]:
-            ops.append(('restore', s))
+        ops += object_ops(world, s)
     ops.append(('clear',))
     for ci in (1, 2, 4, 5):
         ops.append(('warm', ci))
@@ -174,9 +195,9 @@ def apply_op(world, op, ms):
         warnings.simplefilter('ignore')
         if kind == 'new':
             _, s, ci, g = op
-            cfg = POOL[ci]
+            cfg = POOL_ALL[ci]
             gen = cfg[4] if g == 'own' else g
-            world.slots[s] = ref.build(cfg[0], cfg[1], cfg[2], cfg[3], gen, shared=world.shared)
+            world.slots[s] = ref.build(cfg[0], cfg[1], cfg[2], cfg[3], gen, shared=world.shared, cls=cls_of(cfg))
             world.orig[s] = cfg
             world.gen[s] = gen
         elif kind == 'call':
@@ -193,7 +214,24 @@ def apply_op(world, op, ms):
             s = op[1]
             cfg = world.orig[s]
             obj = world.slots[s]
-            obj.method, obj.n, obj.order = cfg[1], cfg[2], cfg[3]
+            obj.method = cfg[1]
+            if cls_of(cfg) == 'Derivative':
+                obj.n = cfg[2]
+            if cls_of(cfg) != 'Hessian':
+                obj.order = cfg[3]
+        elif kind == 'abort':
+            _, s, xi, k = op
+            obj = world.slots[s]
+            orig_fun = obj.fun
+            obj.fun = _Aborting(orig_fun, k)
+            try:
+                obj(np.asarray(XS[xi]))
+            except _Abort:
+                pass
+            except Exception:
+                pass
+            finally:
+                obj.fun = orig_fun
         elif kind == 'clear':
             fdm.FD_RULES.clear()
         elif kind == 'warm':
@@ -204,9 +242,29 @@ def apply_op(world, op, ms):
     return obs
 
 
+class _Abort(Exception):
+    pass
+
+
+class _Aborting(object):
+    """user function that raises at its (k+1)-th evaluation"""
+
+    def __init__(self, fun, k):
+        self.fun, self.k, self.count = fun, k, 0
+
+    def __call__(self, x, *a, **kw):
+        self.count += 1
+        if self.count > self.k:
+            raise _Abort()
+        return self.fun(x, *a, **kw)
+
+
 def effective(world, s):
     obj = world.slots[s]
-    return (world.orig[s][0], obj.method, int(obj.n), int(obj.order), world.gen[s])
+    cfg = world.orig[s]
+    if cls_of(cfg) == 'Derivative':
+        return (cfg[0], obj.method, int(obj.n), int(obj.order), world.gen[s])
+    return (cfg[0], obj.method, cfg[2], (None if cls_of(cfg) == 'Hessian' else int(obj.order)), world.gen[s], cls_of(cfg))
 
 
 def build_world(hist, ms):
@@ -343,16 +401,17 @@ def _pmap_collect(ctx, frontier, refs, mode='full'):
 # schedules (E3)
 
 PAIRS = [(0, 0), (0, 1), (1, 5), (0, 3), (0, 4), (2, 5), (4, 4)]
+MPAIRS = [(6, 6), (6, 7), (6, 9), (8, 10), (0, 6)]      # thread pairs with multivariate classes (array point)
 TRIPLES = [(0, 0, 1), (0, 2, 4)]
 
 
 def make_bodies_factory(cis, xi):
     def make():
         def body(ci):
-            cfg = POOL[ci]
+            cfg = POOL_ALL[ci]
 
             def b():
-                obj = ref.build(*cfg)
+                obj = ref.build(cfg[0], cfg[1], cfg[2], cfg[3], cfg[4], cls=cls_of(cfg))
                 return ref.observe(obj, XS[xi])
             return b
         return [body(ci) for ci in cis]
@@ -372,7 +431,7 @@ def work_sched(chunk, refs=None):
         for b in make():
             b()
         seq_digest = ms.digest()
-        wants = [refs[ref_key(POOL[ci], xi)] for ci in cis]
+        wants = [refs[ref_key(POOL_ALL[ci], xi)] for ci in cis]
         label = '%s/%s/b%d' % ('-'.join(str(c) for c in cis), gran, bound)
 
         def check(run, schedule):
@@ -385,7 +444,7 @@ def work_sched(chunk, refs=None):
                     kind = 'thread-exception'
                 elif res[1] != want:
                     bad = 'thread %d (%r) returned %s, a fresh interpreter returns %s' % (
-                        t, POOL[cis[t]], _short(res[1]), _short(want))
+                        t, POOL_ALL[cis[t]], _short(res[1]), _short(want))
                     kind = 'bits-differ'
             if bad is None and ms.digest() != seq_digest:
                 bad = 'final module state (rule cache) differs from the sequential execution'
@@ -396,7 +455,7 @@ def work_sched(chunk, refs=None):
                 same_key = 'same-cache-key' if len(set(cis)) < len(cis) else 'different-configs'
                 acc.violation('C09:schedule:%s:%s:%s' % (kind, same_key, gran),
                               dict(kind='schedule', cis=list(cis), xi=xi, gran=gran, schedule=[list(s) for s in schedule]),
-                              'threads %r, schedule %r: %s' % ([POOL[c] for c in cis], schedule, bad),
+                              'threads %r, schedule %r: %s' % ([POOL_ALL[c] for c in cis], schedule, bad),
                               rank=len(schedule) * 100000 + (schedule[0][0] if schedule else 0))
 
         try:
@@ -464,6 +523,9 @@ def run(ctx):
     for cis in PAIRS:
         for k in range(shards):
             jobs.append((cis, 0, 1, 'line', (k, shards)))
+    for cis in MPAIRS:
+        for k in range(shards):
+            jobs.append((cis, 2, 1, 'line', (k, shards)))
     if not q:
         for cis in PAIRS[:4]:
             for k in range(64):
@@ -486,7 +548,7 @@ def run(ctx):
                history_depth_completed=hs['depth'], single_object_history_depth_completed=hs['single_object_depth'],
                schedules=nsched, schedule_points=int(acc.counters.get('points', 0)),
                preemption_bound_completed=dict(line=1 if q else 2, instruction=0 if q else 1, three_threads=0 if q else 1))
-    req = ['sched/%s/line/b1' % '-'.join(str(c) for c in cis) for cis in PAIRS] + ['hist/central', 'hist/forward',
+    req = ['sched/%s/line/b1' % '-'.join(str(c) for c in cis) for cis in PAIRS + MPAIRS] + ['hist/central', 'hist/forward',
                                                                                    'hist/complex']
     rule = ('references: one fresh interpreter per (configuration, point) (%d subprocesses). E2: BFS over histories of '
             '{new (own / shared Max / shared Min generator), call at 3 points, set n|order|method, restore, clear cache, '
@@ -531,7 +593,7 @@ def replay(case):
                 obs = apply_op(w, op, ms)
             outs.append(obs)
             cfg = effective(w, hist[-1][1])
-        c = dict(fname=cfg[0], method=cfg[1], n=cfg[2], order=cfg[3], gen=cfg[4], x=XS[hist[-1][2]])
+        c = dict(fname=cfg[0], method=cfg[1], n=cfg[2], order=cfg[3], gen=cfg[4], x=XS[hist[-1][2]], cls=cls_of(cfg))
         r = subprocess.run([sys.executable, ref.__file__, json.dumps(c)], capture_output=True, text=True)
         want = json.loads(r.stdout.strip().splitlines()[-1])
         ms.restore()
@@ -550,14 +612,14 @@ def replay(case):
             res.append(run.results)
         wants = []
         for ci in cis:
-            cfg = POOL[ci]
-            c = dict(fname=cfg[0], method=cfg[1], n=cfg[2], order=cfg[3], gen=cfg[4], x=XS[xi])
+            cfg = POOL_ALL[ci]
+            c = dict(fname=cfg[0], method=cfg[1], n=cfg[2], order=cfg[3], gen=cfg[4], x=XS[xi], cls=cls_of(cfg))
             r = subprocess.run([sys.executable, ref.__file__, json.dumps(c)], capture_output=True, text=True)
             wants.append(json.loads(r.stdout.strip().splitlines()[-1]))
         ms.restore()
         if res[0] != res[1]:
             return False, 'the same schedule gave two different observations (nondeterministic replay)'
         ok = all(r[0] == 'ok' and r[1] == w for r, w in zip(res[0], wants))
-        return ok, 'schedule %r on %r -> %s' % (sched, [POOL[c] for c in cis],
+        return ok, 'schedule %r on %r -> %s' % (sched, [POOL_ALL[c] for c in cis],
                                                 [(_short(r[1]) if r[0] == 'ok' else r) for r in res[0]])
     return True, 'nothing to replay for %r' % kind
